@@ -511,6 +511,8 @@ class Wrapc(util.WrapperMixin):
         for var in node.variables:
             ast = var.ast
             output.append(ast.gen_arg_as_c() + ";")
+            # The header must declare the types of the members.
+            self.header_typedef_nodes[ast.typemap.name] = ast.typemap
         output.extend(
             [
                 -1,
